@@ -369,4 +369,198 @@ theorem toFloat32_table (f32 f64 : F → List Nat) (s : Src) (ty : String) (hty 
   | nilptr => simp [goTypes] at hty
   | other => simp [goTypes] at hty; subst hty; simp only [Gen.CoerceDispatch.toFloat32, Table.run, find]; simp [Branch.run, runGuards, Res.eval, Coerce.toFloat32]; rw [tail _ t64]; generalize Coerce.toFloat64 _ = r; cases r <;> rfl
 
+/-! ## the string helpers: trim, blank guard, library call with its literal arguments -/
+
+theorem stringToInt64_table (f32 f64 : F → List Nat) (i : StrInfo) :
+    runGuards (env f32 f64) (.str i) Gen.CoerceDispatch.stringToInt64.guards Gen.CoerceDispatch.stringToInt64.res =
+      some (Val.int <$> Coerce.stringToInt64 i) := by
+  simp [Gen.CoerceDispatch.stringToInt64, runGuards, Cond.eval, Res.eval, libCall, Coerce.stringToInt64, Functor.map, Except.map]
+  cases i.blank <;> simp
+  cases i.pInt <;> rfl
+
+theorem stringToFloat_table (f32 f64 : F → List Nat) (i : StrInfo) :
+    runGuards (env f32 f64) (.str i) stringToFloat_64.guards stringToFloat_64.res =
+      some (Val.flt <$> Coerce.stringToFloat i.blank i.pFloat) ∧
+    runGuards (env f32 f64) (.str i) stringToFloat_32.guards stringToFloat_32.res =
+      some (Val.flt <$> Coerce.stringToFloat i.blank i.pFloat32) := by
+  constructor <;>
+    simp [stringToFloat_64, stringToFloat_32, runGuards, Cond.eval, Res.eval, libCall, Functor.map, Except.map] <;>
+    cases i.blank <;> simp [Coerce.stringToFloat]
+
+theorem stringToFloat64_table (f32 f64 : F → List Nat) (i : StrInfo) :
+    runGuards (env f32 f64) (.str i) Gen.CoerceDispatch.stringToFloat64.guards Gen.CoerceDispatch.stringToFloat64.res =
+      some (Val.flt <$> Coerce.stringToFloat64 i) := by
+  simp [Gen.CoerceDispatch.stringToFloat64, runGuards, Res.eval, env, fns5, fStringToFloat64]
+
+theorem bigIntToFloat64_table (f32 f64 : F → List Nat) (v : Int) :
+    runGuards (env f32 f64) (.big v) Gen.CoerceDispatch.bigIntToFloat64.guards Gen.CoerceDispatch.bigIntToFloat64.res =
+      some (Val.flt <$> finOrOverflow (bigToF64 v)) := by
+  simp [Gen.CoerceDispatch.bigIntToFloat64, runGuards, Res.eval, env, raws5, fBigToF64]
+
+/-- The calls `stringToInt64` / `stringToFloat` / `stringToBigInt` make on the text, in order, with
+    their arguments — in particular base 10 and 64 bits for `ParseInt`, base 10 then base 16 on
+    `trimmed[2:]` behind the `0x`/`0X` prefix test for `SetString`. -/
+theorem string_calls :
+    stringToInt64_calls = ["strings.TrimSpace(s)", "strconv.ParseInt(trimmed, 10, 64)"] ∧
+    stringToFloat_calls = ["strings.TrimSpace(s)", "strconv.ParseFloat(trimmed, bitSize)", "math.IsNaN(f)"] ∧
+    stringToBigInt_calls = ["strings.TrimSpace(s)", "big.NewInt(0)", "n.SetString(trimmed, 10)",
+      "strings.HasPrefix(trimmed, \"0x\")", "strings.HasPrefix(trimmed, \"0X\")", "n.SetString(trimmed[2:], 16)"] := by
+  decide
+
+/-! ## `To[T]`, the schemas' `Coerce` methods, the truthy words -/
+
+def Tgt.goName : Tgt → String
+  | .int t => IntTy.goName t
+  | .f32 => "float32" | .f64 => "float64" | .bool => "bool" | .str => "string" | .big => "*big.Int"
+
+/-- The helper the model's `to` uses for a target. -/
+def Tgt.helper : Tgt → String
+  | .int .i64 => "ToInt64"
+  | .int t => "ToInteger[" ++ IntTy.goName t ++ "]"
+  | .f32 => "ToFloat[float32]" | .f64 => "ToFloat64" | .bool => "ToBool" | .str => "ToString" | .big => "ToBigInt"
+
+/-- **`coerce.To[T]` routes every target of the property to the helper the model's `to` uses.** -/
+theorem To_routes (t : Tgt) : findRoute (Tgt.goName t) Gen.CoerceDispatch.To = some (Tgt.helper t) := by
+  cases t with
+  | int ty => cases ty <;> decide
+  | _ => decide
+
+/-- The integer schemas coerce through `ToInteger[T]` of their own element type (for `int64`:
+    `ToInteger[int64]`, which is `ToInt64` by `c17_integer_i64_eq`), the float schemas through
+    `ToFloat[float32]` / `ToFloat[float64]`. -/
+theorem schema_routes :
+    (∀ ty : IntTy, findRoute (IntTy.goName ty) integerCoerce = some ("coerce.ToInteger[" ++ IntTy.goName ty ++ "]")) ∧
+    findRoute "float32" floatCoerce = some "coerce.ToFloat[float32]" ∧
+    findRoute "default" floatCoerce = some "coerce.ToFloat[float64]" := by
+  refine ⟨fun ty => by cases ty <;> decide, by decide, by decide⟩
+
+/-- **The truthy table is the one in the source**: `stringToBool` trims, lowers, and its switch
+    holds exactly the words of `boolTable`. -/
+theorem bool_words (w : String) : boolTable w = boolWords.lookup w := by
+  unfold boolTable
+  split
+  case h_12 h1 h2 h3 h4 h5 h6 h7 h8 h9 h10 h11 =>
+    simp only [boolWords, List.lookup]
+    rw [beq_eq_false_iff_ne.mpr h1, beq_eq_false_iff_ne.mpr h2, beq_eq_false_iff_ne.mpr h3, beq_eq_false_iff_ne.mpr h4,
+      beq_eq_false_iff_ne.mpr h5, beq_eq_false_iff_ne.mpr h6, beq_eq_false_iff_ne.mpr h7, beq_eq_false_iff_ne.mpr h8,
+      beq_eq_false_iff_ne.mpr h9, beq_eq_false_iff_ne.mpr h10, beq_eq_false_iff_ne.mpr h11]
+  all_goals decide
+
+theorem bool_pre : boolPre = ["s = strings.TrimSpace(s)", "switch strings.ToLower(s)"] := by decide
+
+/-! ## what surrounds the switches (structure fingerprints)
+
+The text of each function outside its type switch — the `reflectx.Deref` preamble and its
+nil-pointer error, `ToInteger`'s tail (`checkIntegerTypeBounds(val, zero)` then `T(val)`),
+`toFloat32`'s tail, the whole of `ToFloat[T]` and of the three string helpers — exactly as the
+hand model was transcribed from. An edit there changes one of these obligations. -/
+
+set_option maxRecDepth 100000 in
+theorem frames :
+    Gen.CoerceDispatch.ToBool_frame =
+      "d, ok := reflectx.Deref(v); if !ok { return false, NewNilPointerError(\"bool\") }; «switch x := d.(type)»" ∧
+    Gen.CoerceDispatch.ToString_frame =
+      "d, ok := reflectx.Deref(v); if !ok { return \"\", NewNilPointerError(\"string\") }; «switch x := d.(type)»" ∧
+    Gen.CoerceDispatch.ToInt64_frame =
+      "d, ok := reflectx.Deref(v); if !ok { return 0, NewNilPointerError(\"int64\") }; «switch x := d.(type)»" ∧
+    Gen.CoerceDispatch.ToFloat64_frame =
+      "d, ok := reflectx.Deref(v); if !ok { return 0, NewNilPointerError(\"float64\") }; «switch x := d.(type)»" ∧
+    Gen.CoerceDispatch.ToBigInt_frame =
+      "d, ok := reflectx.Deref(v); if !ok { return nil, NewNilPointerError(\"*big.Int\") }; «switch x := d.(type)»" ∧
+    Gen.CoerceDispatch.ToInteger_frame =
+      "var zero T; d, ok := reflectx.Deref(v); if !ok { return zero, NewNilPointerError(\"integer type\") }; var val int64; var err error; «switch x := d.(type)»; if err := checkIntegerTypeBounds(val, zero); err != nil { return zero, err }; return T(val), nil" ∧
+    Gen.CoerceDispatch.toFloat32_frame =
+      "«switch x := d.(type)»; fval, err := ToFloat64(d); if err != nil { return 0, err }; if math.Abs(fval) > math.MaxFloat32 { return 0, NewOverflowError(fval, \"float32\") }; return float32(fval), nil" ∧
+    Gen.CoerceDispatch.stringToInt64_text =
+      "trimmed := strings.TrimSpace(s); if trimmed == \"\" { return 0, nil }; i, err := strconv.ParseInt(trimmed, 10, 64); if err != nil { return 0, NewFormatError(s, \"int64\") }; return i, nil" ∧
+    Gen.CoerceDispatch.stringToFloat_text =
+      "trimmed := strings.TrimSpace(s); if trimmed == \"\" { return 0, nil }; f, err := strconv.ParseFloat(trimmed, bitSize); if err != nil || math.IsNaN(f) { return 0, NewFormatError(s, fmt.Sprintf(\"float%d\", bitSize)) }; return f, nil" ∧
+    Gen.CoerceDispatch.stringToBigInt_text =
+      "trimmed := strings.TrimSpace(s); if trimmed == \"\" { return big.NewInt(0), nil }; n := new(big.Int); if _, ok := n.SetString(trimmed, 10); ok { return n, nil }; if strings.HasPrefix(trimmed, \"0x\") || strings.HasPrefix(trimmed, \"0X\") { if _, ok := n.SetString(trimmed[2:], 16); ok { return n, nil } }; return nil, NewFormatError(s, \"big integer\")" ∧
+    Gen.CoerceDispatch.ToFloat_text =
+      "var zero T; d, ok := reflectx.Deref(v); if !ok { return zero, NewNilPointerError(fmt.Sprintf(\"%T\", zero)) }; if result, ok := d.(T); ok { if math.IsNaN(float64(result)) { return zero, NewFormatError(\"NaN\", fmt.Sprintf(\"%T\", zero)) } return result, nil }; if _, ok := any(zero).(float32); ok { f, err := toFloat32(d) if err != nil { return zero, err } return T(f), nil }; fval, err := ToFloat64(d); if err != nil { return zero, err }; return T(fval), nil" := by
+  refine ⟨rfl, rfl, rfl, rfl, rfl, rfl, rfl, rfl, rfl, rfl, rfl⟩
+
+/-- Every function starts by dereferencing and answers a nil pointer with the nil-pointer error
+    (`toFloat32` is entered after `ToFloat[T]` has done so). -/
+theorem deref_first :
+    Gen.CoerceDispatch.ToBool.deref = true ∧ Gen.CoerceDispatch.ToString.deref = true ∧ ToInt64.deref = true ∧
+    ToFloat64.deref = true ∧ ToBigInt.deref = true ∧ ToInteger.deref = true ∧ Gen.CoerceDispatch.toFloat32.deref = false := by
+  decide
+
+theorem nil_table (e : Env) (t : Table) (ty : String) (next : Val → Option (R Val)) (h : t.deref = true) :
+    t.run e ty .nilptr next = some (.error .nilPtr) := by
+  simp [Table.run, h]
+
+/-! ## coverage: every `case` type of every switch is accounted for -/
+
+/-- Go types the model has a source for. -/
+def modelled : List String :=
+  ["int", "int8", "int16", "int32", "int64", "uint", "uint8", "uint16", "uint32", "uint64", "float32", "float64",
+   "bool", "string", "big.Int", "complex64", "complex128"]
+
+/-- Go types that occur in the switches and are declared outside the property's sources (notes/C17.md):
+    `[]byte` and `time.Time` (→ string only), and `*big.Int` (reached only by a `**big.Int` input, since
+    `reflectx.Deref` strips one pointer level). -/
+def outside : List String := ["[]byte", "time.Time", "*big.Int"]
+
+def allTables : List Table :=
+  [Gen.CoerceDispatch.ToBool, Gen.CoerceDispatch.ToString, ToInt64, ToFloat64, ToBigInt, ToInteger, Gen.CoerceDispatch.toFloat32]
+
+/-- **No clause of any switch names a type the model does not know about.** A new source type in
+    `pkg/coerce` (say `json.Number`) makes this fail, naming the table. -/
+theorem case_types_known :
+    ∀ t ∈ allTables, ∀ b ∈ t.branches, ∀ ty ∈ b.types, ty ∈ modelled ∨ ty ∈ outside := by
+  decide
+
+/-- No clause was left untranslated (`.unknown`) in a guard or a result of a modelled type. -/
+def Res.known : Res → Bool
+  | .unknown _ => false
+  | _ => true
+
+theorem results_known : ∀ t ∈ allTables, ∀ b ∈ t.branches, Res.known b.res = true := by decide
+
+/-! ## the exactness theorems, restated over the regenerated tables -/
+
+/-- **C17 (int64), over the regenerated table**: whatever the `ToInt64` switch that is in the
+    source now returns for a source is the integer that source denotes, in the int64 range. -/
+theorem c17_int64_sound_table (sem : C17.StrSem) (f32 f64 : F → List Nat) (s : Src) (ty : String) (n : Int)
+    (hty : ty ∈ goTypes s) (hwf : C17.wf s)
+    (h : ToInt64.run (env f32 f64) ty s noNext = some (.ok (.int n))) :
+    C17.denotesInt sem s n ∧ IntTy.i64.inRange n := by
+  rw [ToInt64_table f32 f64 s ty hty] at h
+  cases hr : Coerce.toInt64 s with
+  | error e => rw [hr] at h; cases h
+  | ok m =>
+    rw [hr] at h
+    have : m = n := by simpa [Functor.map, Except.map] using h
+    subst this
+    exact C17.c17_int64_sound sem s m hwf hr
+
+/-- **C17 (every integer target), over the regenerated tables** (`ToInteger` switch, then the
+    regenerated `checkIntegerTypeBounds` constants). -/
+theorem c17_integer_sound_table (sem : C17.StrSem) (f32 f64 : F → List Nat) (t : IntTy) (s : Src) (ty : String) (n : Int)
+    (hty : ty ∈ goTypes s) (hwf : C17.wf s)
+    (h : ToInteger.run (env f32 f64) ty s (boundsNext t) = some (.ok (.int n))) :
+    C17.denotesInt sem s n ∧ t.inRange n := by
+  have hn : ∀ n, Coerce.toInt64 s = .ok n → n ≤ 2 ^ 64 - 1 := by
+    intro m hm
+    have := (C17.c17_int64_sound sem s m hwf hm).2
+    simp [IntTy.inRange, IntTy.lo, IntTy.hi, IntTy.signed, IntTy.bits] at this
+    omega
+  rw [ToInteger_table f32 f64 t s ty hty hn] at h
+  cases hr : Coerce.toInteger t s with
+  | error e => rw [hr] at h; cases h
+  | ok m =>
+    rw [hr] at h
+    have : m = n := by simpa [Functor.map, Except.map] using h
+    subst this
+    exact C17.c17_integer_sound sem t s m hwf hr
+
+example : ToInt64.run (env (fun _ => []) (fun _ => [])) "float64" (.f64 (.fin 12 2)) noNext = some (.ok (.int 3)) ∧
+    ToInt64.run (env (fun _ => []) (fun _ => [])) "float64" (.f64 (.fin (2 ^ 63) 0)) noNext = some (.error .overflow) ∧
+    ToInteger.run (env (fun _ => []) (fun _ => [])) "int64" (.int .i64 300) (boundsNext .u8) = some (.error .overflow) ∧
+    ToInteger.run (env (fun _ => []) (fun _ => [])) "int64" (.int .i64 255) (boundsNext .u8) = some (.ok (.int 255)) := by
+  decide
+
 end Gozod.C17D
